@@ -58,7 +58,11 @@ def gen_body(rng, depth=0):
         elif r < 0.45:
             body.append(["v", rng.randint(0, 99)])
         elif r < 0.8 or (depth >= 1 and r < 0.9):
-            body.append(["a", rng.random() < 0.6])
+            blocking = rng.random() < 0.6
+            if depth == 0 and 0.74 <= r < 0.8:
+                body.append(["af", blocking])  # an awaited future that fails
+            else:
+                body.append(["a", blocking])
         elif r < 0.9:
             body.append(["p"])
         else:
@@ -74,6 +78,23 @@ def ref_values(body):
         elif st[0] == "nest":
             out.extend(("n", v) for v in ref_values(st[1]))
     return out
+
+
+def fail_points(body):
+    """For every failing await of the (top-level) body: how many Values precede it."""
+    out, cnt = [], 0
+    for st in body:
+        if st[0] == "v":
+            cnt += 1
+        elif st[0] == "nest":
+            cnt += len(ref_values(st[1]))
+        elif st[0] == "af":
+            out.append(cnt)
+    return out
+
+
+class SubValue(Value):
+    """User subclass of the public Value class."""
 
 
 class C17(object):
@@ -135,13 +156,27 @@ class C17(object):
             out.append(("misuse-guard", "advancing generator %d while its previously returned task is still in flight (inside one of its awaits) did not raise RuntimeError" % gi))
             return "advanced"
 
+        @A.asynq()
+        def failing(gi, blocking):
+            if blocking:
+                yield item(gi, "f%d" % gi)
+            raise SimError("await-fails")
+
         def make(body, gi, progress, top=True):
             @async_generator()
             def g():
                 for idx, st in enumerate(body):
                     progress[0] = idx + 1
                     if st[0] == "v":
-                        yield Value(_payload(st[1]))
+                        if isinstance(st[1], int) and st[1] % 5 == 3:
+                            probes["value_subclass"] = probes.get("value_subclass", 0) + 1
+                            yield SubValue(st[1])
+                        else:
+                            yield Value(_payload(st[1]))
+                    elif st[0] == "af":
+                        probes["failing_await"] = probes.get("failing_await", 0) + 1
+                        got = yield failing.asynq(gi, st[1])
+                        # (the failure goes to whoever awaits the step; the body itself goes on)
                     elif st[0] == "p":
                         if top:
                             yield poke.asynq(gi)
@@ -180,12 +215,27 @@ class C17(object):
             g = make(body, gi, progress)()
             holder[gi] = g
             consumed = 0  # number of values handed out so far
+            fails = fail_points(body)
+            nf = 0  # failing awaits already passed
             try:
                 repr(g)
                 str(g)
             except Exception as e:
                 out.append(("repr", "repr() of an async generator raised %s" % type(e).__name__))
             for op in gspec["ops"]:
+                if op[0] in ("list", "take") and nf < len(fails) and (
+                        op[0] == "list" or (op[1] > 0 and (fails[nf] < consumed + op[1] or len(ref) < consumed + op[1]))):
+                    # the helper reaches a failing await: it fails with that error; the Values up
+                    # to that point are gone with it, the generator itself can be advanced further
+                    try:
+                        vals = yield (list_of_generator.asynq(g) if op[0] == "list" else take_first.asynq(g, op[1]))
+                    except SimError:
+                        consumed = fails[nf]
+                        nf += 1
+                        probes["helper_failed_midway"] = probes.get("helper_failed_midway", 0) + 1
+                        continue
+                    out.append(("fault-lost", "%s over a body whose next await fails returned %r instead of raising (body %r)" % (op[0], vals, body)))
+                    return
                 if op[0] == "list":
                     vals = yield list_of_generator.asynq(g)
                     exp = ref[consumed:]
@@ -244,6 +294,15 @@ class C17(object):
                         except StopIteration:
                             out.append(("misuse-guard", "advancing before the previous task is computed raised StopIteration, not RuntimeError"))
                             return
+                    if nf < len(fails) and fails[nf] == consumed:
+                        try:
+                            v = yield t
+                        except SimError:
+                            nf += 1
+                            probes["step_failed"] = probes.get("step_failed", 0) + 1
+                            continue
+                        out.append(("fault-lost", "the step containing a failing await delivered %r instead of raising (body %r)" % (v, body)))
+                        return
                     v = yield t
                     if v is END_OF_GENERATOR:
                         probes["end_marker_seen"] = probes.get("end_marker_seen", 0) + 1
